@@ -50,11 +50,13 @@ class EventBase(ObjectWithFields):
         ...
 
     @staticmethod
-    def int_or_default_from_string(default: int) -> Callable[[str], int]:
+    def int_or_default_from_string(default: int, minimum: int = 0) -> Callable[[str], int]:
         def int_or_default(value: str):
             value = DashOption.int_or_none_from_string(value)
             if value is None:
                 return default
+            if value < minimum:
+                raise ValueError(f'value must be at least {minimum}')
             return value
         return int_or_default
 
@@ -80,7 +82,9 @@ class EventBase(ObjectWithFields):
                 input_type = 'checkbox'
                 cgi_choices = (str(dflt), str(not dflt))
             elif isinstance(dflt, int):
-                from_string = cls.int_or_default_from_string(dflt)
+                # a repeat interval or timescale of zero (or less) can never be scheduled
+                minimum = 1 if key in {'interval', 'timescale'} else 0
+                from_string = cls.int_or_default_from_string(dflt, minimum)
                 input_type = 'number'
                 cgi_type = '<int>'
                 cgi_choices = tuple([str(dflt)])
